@@ -16,6 +16,8 @@ type Decision struct {
 	C int    // choice
 	V string // value for 'v'
 	N int    // number of alternatives (informational)
+	S []int  // DPOR: goroutines already scheduled at this node (they sleep in this alternative)
+	G bool   // DPOR: C is a goroutine id, not an index into the candidate list
 }
 
 func (d Decision) String() string {
